@@ -335,6 +335,27 @@ ONDUP_MODEL = {"absent": "absent", "replace": "replace", "None": "None", "ignore
                "keep": "keep", "accumulate": "cb:accumulate", "noop": "cb:noop", "drop": "cb:drop", "upper": "cb:upper"}
 
 
+OPTION_FORMS = ["literal", "join", "lower", "subclass", "json", "slice"]
+
+
+def form_str(x, form):
+    """an option string in a given argument form: the source literal, or an EQUAL string made at run time (a different
+    object: options must be compared by value)"""
+    if not isinstance(x, str) or form in (None, "literal"):
+        return x
+    if form == "join":
+        return "".join(list(x))
+    if form == "lower":
+        return x.swapcase().swapcase()
+    if form == "subclass":
+        return _mystr()(x)
+    if form == "json":
+        return json.loads(json.dumps(x))
+    if form == "slice":
+        return ("<" + x + ">")[1:-1]
+    raise ValueError(form)
+
+
 def builder_kwargs(cfg):
     dc, lc = _classes()
     kw = {}
@@ -348,7 +369,11 @@ def builder_kwargs(cfg):
         kw["attribute_value_list_class"] = lc[cfg["lcls"]]
     od = cfg.get("ondup", "absent")
     if od != "absent":
-        kw["on_duplicate_attribute"] = ONDUP[od]
+        kw["on_duplicate_attribute"] = form_str(ONDUP[od], cfg.get("form"))
+    if cfg.get("form") not in (None, "literal") and "multi_valued_attributes" in kw and kw["multi_valued_attributes"]:
+        # map keys and attribute names as run-time strings too
+        kw["multi_valued_attributes"] = {form_str(k, "join"): type(v)(form_str(a, "slice") for a in v)
+                                         for k, v in kw["multi_valued_attributes"].items()}
     return kw
 
 
@@ -362,16 +387,39 @@ def xmlish_builder_class():
     if _XMLISH is None:
         from bs4.builder import TreeBuilder
         from bs4.builder._htmlparser import HTMLParserTreeBuilder
-        _XMLISH = type("XmlishBuilder", (HTMLParserTreeBuilder,), {
+        global XmlishBuilder
+        XmlishBuilder = _XMLISH = type("XmlishBuilder", (HTMLParserTreeBuilder,), {
             "is_xml": True, "NAME": "xmlish", "features": ["xmlish"], "ALTERNATE_NAMES": [],
             "DEFAULT_CDATA_LIST_ATTRIBUTES": TreeBuilder.DEFAULT_CDATA_LIST_ATTRIBUTES})
     return _XMLISH
 
 
+BUILDER_VIAS = ["pickle", "copy", "deepcopy", "soup-pickle", "soup-copy"]
+
+
 def make_builder(cfg):
+    """the configured builder object, possibly after a round trip that must preserve its configuration: pickling,
+    copying, or being carried by a pickled / copied BeautifulSoup object"""
+    import pickle
+    from bs4 import BeautifulSoup
     from bs4.builder._htmlparser import HTMLParserTreeBuilder
     cls = xmlish_builder_class() if cfg.get("xml") else HTMLParserTreeBuilder
-    return cls(**builder_kwargs(cfg))
+    b = cls(**builder_kwargs(cfg))
+    via = cfg.get("via")
+    if via == "pickle":
+        b = pickle.loads(pickle.dumps(b))
+    elif via == "copy":
+        b = copy.copy(b)
+    elif via == "deepcopy":
+        b = copy.deepcopy(b)
+    elif via in ("soup-pickle", "soup-copy"):
+        with warnings.catch_warnings():
+            warnings.simplefilter("ignore")
+            s0 = BeautifulSoup('<p class="a b" id="x">first document</p>', builder=b)
+            s1 = pickle.loads(pickle.dumps(s0)) if via == "soup-pickle" else copy.copy(s0)
+        b = s1.builder
+        _spy_log.clear()          # the start tags of this first document are not the case's
+    return b
 
 
 def make_soup(markup, cfg, shared=None):
@@ -382,7 +430,7 @@ def make_soup(markup, cfg, shared=None):
         warnings.simplefilter("ignore")
         if shared is not None:
             return BeautifulSoup(markup, builder=shared)
-        if cfg.get("xml"):
+        if cfg.get("xml") or cfg.get("via"):
             return BeautifulSoup(markup, builder=make_builder(cfg))
         return BeautifulSoup(markup, "html.parser", **builder_kwargs(cfg))
 
@@ -823,6 +871,10 @@ def gen_cfg(r, allow_ondup=True):
         cfg["ondup"] = r.choice(["absent", "replace", "None", "ignore", "accumulate", "noop", "drop", "upper", "Replace", "keep"])
     if r.random() < 0.15:
         cfg["xml"] = True      # XML-flavoured builder (is_xml, the empty base table unless a map is given)
+    if r.random() < 0.4:
+        cfg["form"] = r.choice(OPTION_FORMS)       # option strings equal to, but not the same objects as, the constants
+    if r.random() < 0.25:
+        cfg["via"] = r.choice(BUILDER_VIAS)        # the builder went through pickle / copy / a pickled or copied soup
     return cfg
 
 
@@ -1214,6 +1266,9 @@ def gen_history_case(r):
     if r.random() < 0.2:
         cfg["xml"] = True          # XML-flavoured builder: is_xml, no table of its own (mva "default" = the empty base table)
         cfg["mva"] = r.choice(["default", [("*", ["class"])], [("p", ["class", "title"]), ("a", ["rel"])]])
+    if r.random() < 0.25:
+        cfg["via"] = r.choice(BUILDER_VIAS)        # the (shared or per-document) builder after a pickle / copy round trip
+        cfg["form"] = r.choice(OPTION_FORMS)
 
     def a_tag():
         name, key = r.choice(pairs)
@@ -1736,7 +1791,20 @@ def run(ctx: Ctx):
                     al.insert(2, ["href", None])
                     cfg = {"mva": "default", "dcls": dcls, "lcls": 0, "ondup": pol}
                     cases.append({"kind": "parse", "cfg": cfg, "name": "a", "attrs": al, "markup": markup_for("a", al)})
-    ctx.exhaustive_parts.append(f"parse: every live table entry x every whitespace code point x default/None; 2-4 repeats x {len(ONDUP)} duplicate policies x 3 dict classes")
+    for pol in ONDUP:
+        for form in OPTION_FORMS:
+            for via in [None] + BUILDER_VIAS:
+                for xml in (False, True):
+                    al = [["class", "a b"], ["id", "1"], ["class", "c"], ["id", None], ["class", " d "]]
+                    cfg = {"mva": "default", "dcls": "absent", "lcls": 0, "ondup": pol, "form": form}
+                    if via:
+                        cfg["via"] = via
+                    if xml:
+                        cfg["xml"] = True
+                        cfg["mva"] = [["*", ["class"]]]
+                    cases.append({"kind": "parse", "cfg": cfg, "name": "p", "attrs": al, "markup": markup_for("p", al)})
+    ctx.exhaustive_parts.append(f"parse: every live table entry x every whitespace code point x default/None; 2-4 repeats x {len(ONDUP)} duplicate policies x 3 dict classes; "
+                                f"{len(ONDUP)} policies x {len(OPTION_FORMS)} argument forms x {1 + len(BUILDER_VIAS)} builder round trips x HTML/XML flavour")
     r = ctx.rng("parse")
     cases += [gen_parse_case(r) for _ in range(ctx.n(12000, 100000))]
     for c in cases:
@@ -1745,6 +1813,8 @@ def run(ctx: Ctx):
         ctx.count("parse:ondup=" + c["cfg"].get("ondup", "absent"))
         ctx.count("parse:mva=" + ("default" if c["cfg"]["mva"] == "default" else "none" if c["cfg"]["mva"] is None else "custom"))
         ctx.count("parse:dcls=" + c["cfg"].get("dcls", "absent"))
+        ctx.count("parse:form=" + str(c["cfg"].get("form", "literal")))
+        ctx.count("parse:via=" + str(c["cfg"].get("via", "direct")))
     check_cases(ctx, "parse", cases)
     r = ctx.rng("parse-malformed")
     cases = [gen_malformed_case(r) for _ in range(ctx.n(5000, 40000))]
